@@ -54,6 +54,22 @@ pub enum LabelKind {
 
 pub const WEIGHTS: [f32; 4] = [0.5, 1.0, 2.0, 4.0];
 
+/// Memory layout of a records array handed to linfa. The logical rows are the same in every layout.
+#[derive(Debug, Clone, Copy, Serialize, Deserialize, PartialEq, Eq, Default)]
+pub enum Layout {
+    /// owned, standard (row-major) layout; fitted through `Dataset`
+    #[default]
+    RowMajor,
+    /// owned, column-major (`(n, p).f()`): contiguous but not standard layout; fitted through `Dataset`
+    ColMajor,
+    /// `buf.t()` of a features-by-samples buffer: contiguous, column-major strides; `DatasetView`
+    TransposedView,
+    /// every second row of a doubled array with junk in the skipped rows: not contiguous; `DatasetView`
+    StridedView,
+    /// reversed view of a buffer holding the rows in reverse order (negative row stride); `DatasetView`
+    ReversedRows,
+}
+
 #[derive(Debug, Clone, Serialize, Deserialize)]
 pub struct Case {
     /// element type of the records: f32 or f64
@@ -73,6 +89,12 @@ pub struct Case {
     pub min_impurity_decrease: f64,
     /// query rows (codes in half steps / ulps − 1), p codes each
     pub queries: Vec<Vec<u8>>,
+    /// memory layout of the training records (also used when predicting the training rows)
+    #[serde(default)]
+    pub layout: Layout,
+    /// memory layout of the query records
+    #[serde(default)]
+    pub qlayout: Layout,
 }
 
 impl Case {
